@@ -39,7 +39,8 @@ pub(crate) fn binary_operator(s: Span) -> IResult<Span, BinaryOperator> {
             symbol("!=="),
             symbol("!=?"),
             symbol("!="),
-            symbol("&&"),
+            // "&&&" is one token (cond_predicate), not "&&" followed by the reduction "&"
+            preceded(peek(not(tag("&&&"))), symbol("&&")),
             symbol("||"),
         )),
         alt((
